@@ -92,6 +92,13 @@ def blue_extra_actions() -> List[Dict]:
         {"action": "host-nic-enable", "options": {"node_name": WEB, "nic_num": 1}},
         {"action": "node-shutdown", "options": {"node_name": DB}},
         {"action": "node-startup", "options": {"node_name": DB}},
+        # uninstalling the application a component watches: its owner's execute request is then answered `unreachable`
+        {"action": "node-application-remove", "options": {"node_name": host_name(1), "application_name": "database-client"}},
+        {"action": "node-application-install", "options": {"node_name": host_name(1), "application_name": "database-client"}},
+        {"action": "node-application-remove", "options": {"node_name": host_name(1), "application_name": "web-browser"}},
+        {"action": "node-application-install", "options": {"node_name": host_name(1), "application_name": "web-browser"}},
+        {"action": "node-application-remove", "options": {"node_name": host_name(0), "application_name": "database-client"}},
+        {"action": "node-application-remove", "options": {"node_name": host_name(0), "application_name": "web-browser"}},
     ]
 
 
@@ -122,7 +129,8 @@ def component_cfg(c: Dict) -> Dict:
 def runtime_cfg(agents: List[Dict], order: List[int], hosts: List[Dict], db_password: Optional[str]) -> Dict:
     """agents[i] = {"comps": [...]} is agent ag<i> living on host c<i>; ag0 is the proxy (RL) agent, the rest scripted.
 
-    hosts[i] = {"url": key of URLS, "pw": bool (client configured with the right database password)}.
+    hosts[i] = {"url": key of URLS, "pw": bool (client configured with the right database password),
+    "noapp": None | "web-browser" | "database-client" (application left out of the host's scenario entry)}.
     """
     n = len(agents)
     nodes = [switch("sw", 8, start_up_duration=0, shut_down_duration=0)]
@@ -144,9 +152,11 @@ def runtime_cfg(agents: List[Dict], order: List[int], hosts: List[Dict], db_pass
         co: Dict = {"db_server_ip": DB_IP}
         if db_password:
             co["server_password"] = db_password if h["pw"] else "wrong-" + db_password
+        apps = [{"type": "web-browser", "options": {"target_url": URLS[h["url"]]}},
+                {"type": "database-client", "options": co}]
+        apps = [a for a in apps if a["type"] != h.get("noapp")]  # "never installed": execute is answered `unreachable`
         nodes.append(computer(host_name(i), f"192.168.1.{20 + i}", start_up_duration=1, shut_down_duration=1,
-                              applications=[{"type": "web-browser", "options": {"target_url": URLS[h["url"]]}},
-                                            {"type": "database-client", "options": co}]))
+                              applications=apps))
         links.append(link("sw", 3 + i, host_name(i), 1))
 
     acfg = []
